@@ -10,6 +10,7 @@ From IT.gen Require Import GenInventory.
 Open Scope string_scope.
 
 Theorem SRC_inventory_relations : inv_relations = [
+  ("use crate :: { error :: ConsistencyError , siblings_range :: { DetachedSiblingsRange , SiblingsRange } , Arena , NodeId , }", []);
   ("debug_assert_triangle_nodes!#1: expression macro", ["{ if cfg ! (debug_assertions) { crate :: relations :: assert_triangle_nodes (MV_arena , MV_parent , MV_previous , MV_next) ; } }"]);
   ("fn assert_triangle_nodes", []);
   ("fn connect_neighbors", []);
